@@ -1,6 +1,7 @@
 package validate
 
 import (
+	"cmp"
 	"math"
 	"net"
 	"net/url"
@@ -70,34 +71,26 @@ type URLOptions struct {
 
 // Lt reports whether value is less than limit.
 func Lt(value, limit any) bool {
-	if !reflectx.IsNumeric(value) || !reflectx.IsNumeric(limit) {
-		return false
-	}
-	return toFloat64(value) < toFloat64(limit)
+	c, ok := compareNumeric(value, limit)
+	return ok && c < 0
 }
 
 // Lte reports whether value is less than or equal to limit.
 func Lte(value, limit any) bool {
-	if !reflectx.IsNumeric(value) || !reflectx.IsNumeric(limit) {
-		return false
-	}
-	return toFloat64(value) <= toFloat64(limit)
+	c, ok := compareNumeric(value, limit)
+	return ok && c <= 0
 }
 
 // Gt reports whether value is greater than limit.
 func Gt(value, limit any) bool {
-	if !reflectx.IsNumeric(value) || !reflectx.IsNumeric(limit) {
-		return false
-	}
-	return toFloat64(value) > toFloat64(limit)
+	c, ok := compareNumeric(value, limit)
+	return ok && c > 0
 }
 
 // Gte reports whether value is greater than or equal to limit.
 func Gte(value, limit any) bool {
-	if !reflectx.IsNumeric(value) || !reflectx.IsNumeric(limit) {
-		return false
-	}
-	return toFloat64(value) >= toFloat64(limit)
+	c, ok := compareNumeric(value, limit)
+	return ok && c >= 0
 }
 
 // Positive reports whether the numeric value is positive (> 0).
@@ -117,9 +110,13 @@ func MultipleOf(value, divisor any) bool {
 	if !reflectx.IsNumeric(value) || !reflectx.IsNumeric(divisor) {
 		return false
 	}
-	val := toFloat64(value)
-	div := toFloat64(divisor)
-	if div == 0 {
+	if a, ok := toNum(value); ok && a.kind != numFloat {
+		if b, ok := toNum(divisor); ok && b.kind != numFloat {
+			return multipleOfInts(a, b)
+		}
+	}
+	val, div, ok := toFloat64Pair(value, divisor)
+	if !ok || div == 0 {
 		return false
 	}
 	// Handle floating point precision with relative epsilon.
@@ -513,12 +510,204 @@ func matchString(value any, pattern *regexp.Regexp) bool {
 }
 
 // toFloat64 converts any value to float64 using the coerce package.
-func toFloat64(value any) float64 {
+// The second result is false when the value has no float64 reading (for
+// example NaN), in which case it takes part in no order relation.
+func toFloat64(value any) (float64, bool) {
 	result, err := coerce.ToFloat64(value)
 	if err != nil {
-		return 0
+		return 0, false
 	}
-	return result
+	return result, true
+}
+
+func toFloat64Pair(a, b any) (float64, float64, bool) {
+	x, ok := toFloat64(a)
+	if !ok {
+		return 0, 0, false
+	}
+	y, ok := toFloat64(b)
+	if !ok {
+		return 0, 0, false
+	}
+	return x, y, true
+}
+
+// Kinds of numeric payload distinguished by compareNumeric.
+const (
+	numInt = iota
+	numUint
+	numFloat
+)
+
+// num is a Go number held without loss: an int64, a uint64 or a float64.
+type num struct {
+	kind int
+	i    int64
+	u    uint64
+	f    float64
+}
+
+// toNum extracts the exact numeric payload of the built-in integer and
+// float types. Other numeric types (complex, big.Int) report false.
+func toNum(v any) (num, bool) {
+	switch x := v.(type) {
+	case int:
+		return num{kind: numInt, i: int64(x)}, true
+	case int8:
+		return num{kind: numInt, i: int64(x)}, true
+	case int16:
+		return num{kind: numInt, i: int64(x)}, true
+	case int32:
+		return num{kind: numInt, i: int64(x)}, true
+	case int64:
+		return num{kind: numInt, i: x}, true
+	case uint:
+		return num{kind: numUint, u: uint64(x)}, true
+	case uint8:
+		return num{kind: numUint, u: uint64(x)}, true
+	case uint16:
+		return num{kind: numUint, u: uint64(x)}, true
+	case uint32:
+		return num{kind: numUint, u: uint64(x)}, true
+	case uint64:
+		return num{kind: numUint, u: x}, true
+	case uintptr:
+		return num{kind: numUint, u: uint64(x)}, true
+	case float32:
+		return num{kind: numFloat, f: float64(x)}, true
+	case float64:
+		return num{kind: numFloat, f: x}, true
+	default:
+		return num{}, false
+	}
+}
+
+// compareNumeric orders two numeric values exactly. It returns -1, 0 or +1
+// and true, or false when the values are unordered (a NaN is involved).
+// Integers are never routed through float64, so 64-bit values above 2^53
+// compare correctly.
+func compareNumeric(value, limit any) (int, bool) {
+	if !reflectx.IsNumeric(value) || !reflectx.IsNumeric(limit) {
+		return 0, false
+	}
+	a, okA := toNum(value)
+	b, okB := toNum(limit)
+	if !okA || !okB {
+		x, y, ok := toFloat64Pair(value, limit)
+		if !ok {
+			return 0, false
+		}
+		return cmpFloats(x, y)
+	}
+	switch {
+	case a.kind == numFloat && b.kind == numFloat:
+		return cmpFloats(a.f, b.f)
+	case a.kind == numFloat:
+		c, ok := cmpIntFloat(b, a.f)
+		return -c, ok
+	case b.kind == numFloat:
+		return cmpIntFloat(a, b.f)
+	default:
+		return cmpInts(a, b), true
+	}
+}
+
+func cmpFloats(x, y float64) (int, bool) {
+	switch {
+	case math.IsNaN(x) || math.IsNaN(y):
+		return 0, false
+	case x < y:
+		return -1, true
+	case x > y:
+		return 1, true
+	default:
+		return 0, true
+	}
+}
+
+func cmpInts(a, b num) int {
+	switch {
+	case a.kind == numInt && b.kind == numInt:
+		return cmp.Compare(a.i, b.i)
+	case a.kind == numUint && b.kind == numUint:
+		return cmp.Compare(a.u, b.u)
+	case a.kind == numInt:
+		if a.i < 0 {
+			return -1
+		}
+		return cmp.Compare(uint64(a.i), b.u)
+	default:
+		if b.i < 0 {
+			return 1
+		}
+		return cmp.Compare(a.u, uint64(b.i))
+	}
+}
+
+// cmpIntFloat orders an integer against a float64 exactly: against the
+// float's integer part when that fits the integer's range, then by the sign
+// of its fractional part.
+func cmpIntFloat(n num, f float64) (int, bool) {
+	const two63, two64 = 9223372036854775808.0, 18446744073709551616.0
+	switch {
+	case math.IsNaN(f):
+		return 0, false
+	case math.IsInf(f, 1):
+		return -1, true
+	case math.IsInf(f, -1):
+		return 1, true
+	}
+	t := math.Trunc(f)
+	var c int
+	if n.kind == numUint {
+		switch {
+		case f < 0:
+			return 1, true
+		case t >= two64:
+			return -1, true
+		}
+		c = cmp.Compare(n.u, uint64(t))
+	} else {
+		switch {
+		case t >= two63:
+			return -1, true
+		case t < -two63:
+			return 1, true
+		}
+		c = cmp.Compare(n.i, int64(t))
+	}
+	if c != 0 {
+		return c, true
+	}
+	return cmp.Compare(t, f), true
+}
+
+// multipleOfInts reports whether the integer a is an exact multiple of the
+// integer b, without any floating-point tolerance.
+func multipleOfInts(a, b num) bool {
+	switch {
+	case a.kind == numInt && b.kind == numInt:
+		return b.i != 0 && a.i%b.i == 0
+	case a.kind == numUint && b.kind == numUint:
+		return b.u != 0 && a.u%b.u == 0
+	case a.kind == numUint:
+		if b.i == 0 {
+			return false
+		}
+		m := uint64(b.i)
+		if b.i < 0 {
+			m = uint64(-(b.i + 1)) + 1
+		}
+		return a.u%m == 0
+	default:
+		if b.u == 0 {
+			return false
+		}
+		if b.u > math.MaxInt64 {
+			return a.i == 0 || (a.i == math.MinInt64 && b.u == 1<<63)
+		}
+		return a.i%int64(b.u) == 0
+	}
 }
 
 // collectionSize returns the size of a collection (map, slice, array, string).
